@@ -448,6 +448,9 @@ fn log2ceil(x: u64) -> u64 {
 
 async fn incarnation(sh: &Shared, disk: &Disk, cfg: &Config, d: &mut Driver) -> Next {
     d.incarnation += 1;
+    // The metrics registry is process-global, grows with every ServiceRunner::new and is encoded
+    // as a whole on every registration: clear it (harness hygiene; metrics are not observed).
+    *fuel_core_metrics::global_registry().registry.lock() = Default::default();
     let retry = lk(sh).k.retry;
     let eth = SimEth { sh: sh.clone() };
     let announce = |h: Option<u64>, stack: &str| {
@@ -924,7 +927,8 @@ fn run_inner(sh: &Shared) {
         match next {
             Next::Finish => break,
             Next::Restart => {
-                if d.incarnation > 400 {
+                // every driver step restarts the service at most once
+                if d.incarnation > lk(sh).k.steps + 60 {
                     let n = d.incarnation;
                     lk(sh).ctx.violate(
                         P,
@@ -961,13 +965,14 @@ impl World for Relay {
             "DA node: SimEth implements alloy_provider::Provider (get_block(finalized), get_logs, syncing) over a generated immutable log set; latency, RPC errors (transport / error response / null), node limits (max block range, max results), syncing flag, finalized-height movement (stall, +1, jump, stale value) from the tape; after 64 calls within one driver step further calls take one poll period (keeps simulated time moving)",
             "port storage stack (1 of 3 runs): PlainDb, a minimal implementation of the relayer's public ports::Transactional over MemKv (sorted in-memory map; latest height = highest EventsHistory key); it has no height-link check, so the relayer's own write discipline is what is observed",
             "storage faults in both stacks (FaultyStore around MemoryStore / PlainDb): commit error before apply, commit applied with lost acknowledgement, read error; RocksDB is not used in this world",
+            "the process-global fuel-core-metrics registry is cleared before every service start (it grows with every ServiceRunner::new; busy/idle metrics are not observed)",
             "process crash = dropping the tokio runtime (tasks die at their await point; a commit is atomic); graceful restart = ServiceRunner::stop_and_await; the QuorumProvider/HTTP transport is not run",
         ]
     }
     fn default_runs(&self, _prop: &str, tier: Tier) -> u64 {
         match tier {
             Tier::Quick => 6000,
-            Tier::Thorough => 250_000,
+            Tier::Thorough => 500_000,
         }
     }
     fn nontrivial_min_ops(&self, _prop: &str) -> u64 {
